@@ -12,6 +12,7 @@ A path is a list of events in program order:
   ('call', term, ast_node)           expression statement call (cell writes, append, add_entry, ...)
   ('local', name, term)              local (re)binding, kept for def-use questions
   ('del', container, key)
+  ('setdefault', container, key, value, ast_node)   container.setdefault(key, value) as a statement: store only if the slot is empty
 plus an exit kind: fall / return / raise / break / continue / exit and the return term if any.
 Nested loops inside the analysed body are summarised as ('loop', [paths of body]) with the variables they assign havoc-ed.
 """
@@ -61,6 +62,8 @@ class SymExec:
     def __init__(self, norm: Norm, ctx: Ctx, max_paths: int = 4000, inline_helpers: bool = True) -> None:
         self.inline_helpers = inline_helpers
         self.norm = norm
+        if ctx.func is not None:
+            norm.touched.add(ctx.func.fq)
         self.base_ctx = ctx
         self.max_paths = max_paths
         self.depth = 0
@@ -207,6 +210,7 @@ class SymExec:
                 init.vars[kw.arg] = (t, cctx.vars.get(kw.arg, (None, ty))[1] if cctx.vars.get(kw.arg, (None, ANY))[1] != ANY else ty)
         if recv is not None and skip and not fi.is_classmethod:
             init.vars[fi.param_names[0]] = (recv, ("cls", fi.cls.fq))
+        self.norm.touched.add(fi.fq)
         sub = SymExec(self.norm, cctx, self.max_paths)
         sub.depth = self.depth + 1
         sub.busy = self.busy + (fi.fq,)
@@ -283,6 +287,14 @@ class SymExec:
             return [st]
         if isinstance(stmt, ast.Expr):
             if isinstance(stmt.value, ast.Call):
+                call = stmt.value
+                if isinstance(call.func, ast.Attribute) and call.func.attr == "setdefault" and len(call.args) == 2 and not call.keywords:
+                    # d.setdefault(k, v) as a statement: a store that happens only when the slot is empty ("first value wins")
+                    cont, _ = self.eval(call.func.value, st)
+                    key, _ = self.eval(call.args[0], st)
+                    val, _ = self.eval(call.args[1], st)
+                    st.events.append(("setdefault", cont, key, val, call))
+                    return [st]
                 t, _ = self.eval(stmt.value, st)
                 st.events.append(("call", t, stmt.value))
             return [st]
